@@ -3,17 +3,17 @@ import Sidetree.Generated.Effects
 namespace Sidetree.Obligations
 open Sidetree.Effects
 
-def disciplinedOpt : Option (List String) → Option Prog → Bool
+def disciplinedOpt : Option (List Nat) → Option (Prog Nat) → Bool
   | some ins, some p => Disciplined ins p
   | _, _ => false
 
 /-- composer.go: ApplyPatches (with every function it calls in that file) never writes through
     `doc`, `patches` or anything that may alias them -/
 theorem C12_effects_ApplyPatches :
-    disciplinedOpt Generated.inputs_ApplyPatches Generated.prog_ApplyPatches = true := by decide
+    disciplinedOpt Generated.inputs_ApplyPatches Generated.prog_ApplyPatches = true := by decide +kernel
 
 /-- operationapplier.go: Apply (with the four apply functions) never writes through the anchored
     operation, the previous resolution model or the applier itself -/
 theorem C12_effects_Apply :
-    disciplinedOpt Generated.inputs_Apply Generated.prog_Apply = true := by decide
+    disciplinedOpt Generated.inputs_Apply Generated.prog_Apply = true := by decide +kernel
 end Sidetree.Obligations
